@@ -16,6 +16,7 @@ import (
 	"os/exec"
 	"path/filepath"
 	"regexp"
+	"slices"
 	"strings"
 	"sync"
 	"syscall"
@@ -39,6 +40,8 @@ type c20Case struct {
 	with it every finalizer) runs all the time instead of perhaps never in
 	a short session. */
 	GC bool `json:"gc_all_the_time,omitempty"`
+	/* Term, if set, is the operator's TERM ("unset": none at all). */
+	Term string `json:"term,omitempty"`
 }
 
 // c20Env is the environment of the program under test.
@@ -46,6 +49,12 @@ func c20Env(c c20Case, dir string) []string {
 	env := append(os.Environ(), "HOME="+dir, "CURLREVSHELL_LOG=")
 	if c.GC {
 		env = append(env, "GOGC=1")
+	}
+	if "" != c.Term {
+		env = slices.DeleteFunc(env, func(e string) bool { return strings.HasPrefix(e, "TERM=") })
+		if "unset" != c.Term {
+			env = append(env, "TERM="+c.Term)
+		}
 	}
 	return env
 }
@@ -394,7 +403,23 @@ func c20(r *ev.Result, tier string) {
 			cases = append(cases, c)
 		}
 	}
-	r.Rule = fmt.Sprintf("the real binary: every single fault of %v and every pair from different resources x informational flag %v x {pty, no controlling terminal}; every self-initiated exit %v; exits and single faults also with the garbage collector (and finalizers) running all the time (GOGC=1); "+
+	/* Start-up failures and exits on other terminals (a serial console, a
+	shell inside an editor, ssh without a terminal type). */
+	for _, term := range []string{"dumb", "unset", "xterm-256color", "vt100"} {
+		for _, c := range cases {
+			if c.TTY && "" == c.Flag && len(c.Faults) <= 1 && !c.GC && "" == c.Term {
+				c.Term = term
+				cases = append(cases, c)
+			}
+		}
+		for _, c := range exits {
+			if !c.GC && "" == c.Term {
+				c.Term = term
+				exits = append(exits, c)
+			}
+		}
+	}
+	r.Rule = fmt.Sprintf("the real binary: every single fault of %v and every pair from different resources x informational flag %v x {pty, no controlling terminal}; every self-initiated exit %v; exits and single faults also with the garbage collector (and finalizers) running all the time (GOGC=1) and with TERM dumb / unset / xterm-256color / vt100; "+
 		"oracle: no panic/stack trace, non-zero status naming a cause (or the requested output), termios after exit equal to termios before start; distinct = distinct cases", faults, flags, []string{"ctrl-c", "ctrl-d", "one-shell", "…-attached"})
 	var mu sync.Mutex
 	for _, gc := range []bool{false, true} {
@@ -430,6 +455,9 @@ func c20(r *ev.Result, tier string) {
 			}
 			if c.GC {
 				cls += "/gc"
+			}
+			if "" != c.Term {
+				cls += "/TERM=" + c.Term
 			}
 			r.Violate(ev.Violation{Signature: sig + "/" + cls + "/" + c.Flag, What: fmt.Sprintf("%+v: %s", c, what), Kind: "c20", Replay: c})
 		}
